@@ -207,11 +207,34 @@ def run(tier="quick", root="/repo", evidence_dir=None, quiet=False):
             cond[3] == (("const", "None"),)
         if none_test:
             built, other = (a, b) if cond[1] == ("IsNot",) else (b, a)
-            ordered = any(contains(built, ("call", ("attr", ("sym", "self"), "transform"), (d_,), ())) or
-                          contains(built, ("call", ("attr", ("sym", "self"), "transform"),
-                                           (("call", ("attr", ("glob", "np"), "array"), (d_,), ()),), ())) for d_ in doms) \
+            images = [("call", ("attr", ("sym", "self"), "transform"), (d_,), ()) for d_ in doms] + \
+                     [("call", ("attr", ("sym", "self"), "transform"),
+                       (("call", ("attr", ("glob", "np"), "array"), (d_,), ()),), ()) for d_ in doms]
+            ordered = any(contains(built, im) for im in images) \
                 and any(fn in e5.show(built, 300) for fn in ("np.sort(", "sorted(", "min(", "np.min("))
-            d_ok = ordered and (other in doms or other == ("const", "None"))
+            # the ordered image and nothing else: only the ordering / container conversions may wrap it
+            def only_ordering(t):
+                if t in images:
+                    return True
+                if isinstance(t, tuple) and t and t[0] == "call" and e5.show(t[1]) in (
+                        "tuple", "list", "np.sort", "sorted", "np.asarray", "np.array") and len(t[2]) == 1 and not t[3]:
+                    return only_ordering(t[2][0])
+                if isinstance(t, tuple) and t and t[0] in ("tuple", "list") and len(t[1]) == 2:
+                    a_, b_ = t[1]
+                    return all(isinstance(z, tuple) and z[0] == "call" and e5.show(z[1]) in
+                               ("min", "max", "np.min", "np.max", "np.amin", "np.amax") and len(z[2]) == 1 and
+                               z[2][0] in images for z in (a_, b_)) and e5.show(a_[1]).endswith("min") and \
+                        e5.show(b_[1]).endswith("max")
+                return False
+            exact = only_ordering(built)
+            d_ok = ordered and exact and (other in doms or other == ("const", "None"))
+            if ordered and not exact and (other in doms or other == ("const", "None")):
+                txt_b = e5.show(built, 300)
+                if any(w_ in txt_b for w_ in ("clip", "minimum", "maximum", "codomain", "where(")):
+                    pass    # the image is altered after it was computed: reported below
+                else:
+                    raise AnalysisError(f"unrecognised idiom: new domain `{txt_b[:120]}` wraps the ordered image in "
+                                        f"operations the checker does not know")
     if d_ok:
         rep.ok("d.domain-is-ordered-image", cons, where, d_desc[:140])
     else:
